@@ -25,7 +25,7 @@ S["C17"] = dict(title="In-flight packet identifiers unique and bounded; excess g
     H("verifH_C17_ring", "L17.b next identifier differs from every in-flight one while fewer than 0x4000 are in flight (all wrap positions at once)"),
     H("verifH_C17_slots", "L17.d/L11.a startTx/endTx from arbitrary counter and registered keys"),
     H("verifH_C17_slotlimit", "L17.d slot exhaustion gives ErrMax without trace"),
-    H("verifH_C02_adopt", "L17.e restart: counters rebuilt for every ring position incl. windows straddling the wrap; new publish does not collide", T({"shapes":6}), T({"shapes":10}, time_sec=2400), ("adopted","adopted-twice","drained")),
+    H("verifH_C02_adopt", "L17.e restart: counters rebuilt for every ring position incl. windows straddling the wrap; new publish does not collide", T({"shapes":6}), T({"shapes":10}, time_sec=2400), ("adopted","adopted-twice","drained","adopted-twice-pubrec")),
     _accept, _ack],
   assumptions=_outasm,
   bounds={"quick":"maxima in classes {<0, 0, 1..3, 16383..16384, >16384} with the value free inside; W<=2 concrete in-flight entries; <= 2 pre-registered subscribe/unsubscribe slots at free identifiers","thorough":"W<=3"},
@@ -59,7 +59,7 @@ S["C07"] = dict(title="Inbound acknowledgements go out only after the applicatio
   bounds={"quick":"<= 2 inbound packets per stream, every return followed by one more ReadSlices","thorough":"as C06 thorough"},
   outside=["concurrent outbound requests (wire integrity is C08's token argument)","write failures of the acknowledgement itself (covered in C10's harness)"])
 S["C02"] = dict(title="Restart resumes exactly the unacknowledged set, at any stop point, repeatedly", technique=TECH+"; AdoptSession run on an arbitrary store content a stop can leave (ring positions, storage sequence numbers and List order free), observed through resend, two generations", harnesses=[
-    H("verifH_C02_adopt", "adopt an arbitrary PINV store -> observe; publish; stop; adopt again -> observe", T({"shapes":6}), T({"shapes":10}, time_sec=2400), ("adopted","adopted-twice","drained")),
+    H("verifH_C02_adopt", "adopt an arbitrary PINV store -> observe; publish; stop; adopt again -> observe", T({"shapes":6}), T({"shapes":10}, time_sec=2400), ("adopted","adopted-twice","drained","adopted-twice-pubrec")),
   ],
   assumptions=["PINV (DESIGN 4.1): what a stop can leave is one contiguous run per kind (QoS1 PUBLISH, PUBREL, QoS2 PUBLISH), the PUBREL run directly before the QoS2 PUBLISH run, storage sequence numbers ascending within a run; that every operation re-establishes it is shown by the C01 harnesses (the record written/deleted per operation) — paper step",
     "the store honours the Persistence contract (FileSystem's adherence under stops is C19)", "sort.Slice is modelled as insertion sort calling the real less closure"],
@@ -79,7 +79,7 @@ S["C03"] = dict(title="Exactly-once publish: no PUBLISH after recorded PUBREC; P
     H("verifH_C03_cycle", "PUBREC (with store/write faults) -> resend in the same process -> AdoptSession -> resend -> PUBCOMP -> new publish", T({"W":1,"wfaults":1,"storefaults":1}), T({"W":2,"wfaults":2,"storefaults":1}, time_sec=1500), ("recorded","not-recorded","completed")),
     _ack, _resend,
     H("verifH_C17_ring", "L03.c identifier not reused while fewer than 0x4000 in flight (all wrap positions)"),
-    H("verifH_C02_adopt", "L03.b restart resumes each transfer at its stage (PUBREL vs PUBLISH by stored packet type)", T({"shapes":6}), T({"shapes":10}, time_sec=2400), ("adopted","adopted-twice","drained")),
+    H("verifH_C02_adopt", "L03.b restart resumes each transfer at its stage (PUBREL vs PUBLISH by stored packet type)", T({"shapes":6}), T({"shapes":10}, time_sec=2400), ("adopted","adopted-twice","drained","adopted-twice-pubrec")),
   ],
   assumptions=_outasm+["broker-side consequence (forwards exactly once) is the paper step from these facts against the MQTT 3.1.1 receiver rules"],
   bounds={"quick":"W<=2 per run, <= 1 faulty store call and write per step, 1 restart","thorough":"W<=3"},
